@@ -161,8 +161,12 @@ def k_sim3(run, case):
     R = gen.rot_of_class(rng, gen.ROT_CLASSES[rng.integers(len(gen.ROT_CLASSES))])
     t = rng.normal(size=3) * 10.0**rng.uniform(-6, 9)
     s = 10.0**rng.uniform(-4, 4)
+    if rng.random() < .3:
+        # scales close to (but different from) 1: no tolerance-based SE(3) shortcut may apply
+        s = 1.0 + (1 if rng.random() < .5 else -1) * 10.0**rng.uniform(-9, -3)
     S = L.sim3(R, t, s)
-    run.seen(case, core.digest(S), cls=["sim3:s~1e%+d" % int(math.floor(math.log10(s)))],
+    run.seen(case, core.digest(S), cls=["sim3:s~1e%+d" % int(math.floor(math.log10(s))) if abs(s - 1) > 1e-2 else
+                                        "sim3:|s-1|~1e%+d" % int(math.floor(math.log10(abs(s - 1))))],
              sample={"S": S, "s": s})
     run.check(np.array_equal(S[:3, :3], s * R) and np.array_equal(S[:3, 3], t)
               and np.array_equal(S[3], [0, 0, 0, 1]), "sim3 constructor", case,
